@@ -54,8 +54,8 @@ Print Assumptions only_the_offender_is_dropped.
 Example c18_history :
   let run := fold_left (λ st o, let r := step [] st.1 o in (r.1, (st.2 ++ [r.2])%list)) in
   let ops := [EConnect 0%nat "w" "cw" "" "" 60 None 10; ESubscribe "w" 1 [("#", 0)] 20;
-              EConnect 0%nat "v" "cv" "" "" 60 (Some (Publish "will" "dead" 0 false)) 30;
-              EBadConnect 0%nat "h"; EProtoError "v" 40; EPublish "w" (Publish "x" "alive" 0 false) false 0 50] in
+              EConnect 0%nat "v" "cv" "" "" 60 (Some (Publish "will" "dead" 0 false false)) 30;
+              EBadConnect 0%nat "h"; EProtoError "v" 40; EPublish "w" (Publish "x" "alive" 0 false false) false 0 50] in
   let o := (run ops (cnew 1%nat, [])).2 in
   nth 3%nat o [] = [Closed "h"]
   ∧ nth 4%nat o [] = [Closed "v"; Appended 0%nat "_default/will" "dead" 0 false; Out "w" (OPublish "will" "dead" 0 false false 0)]
